@@ -135,7 +135,9 @@ def gfa_layout(text):
         k = next((i for i, l in enumerate(lines) if l.startswith("S\t")), None)
         if k is not None:
             sid = lines[k].split("\t")[1]
-            lines[k + 1:k + 1] = [f"P\tharness_path\t{sid}+\t*", f"W\tsmp\t0\tctg\t0\t1\t>{sid}", "# a comment"]
+            lines[k + 1:k + 1] = [f"P\tharness_path\t{sid}+\t*", f"W\tsmp\t0\tctg\t0\t1\t>{sid}", "# graphe ordonn\u00e9 (a comment, not ASCII)", ""]
+        if not any(l.startswith("H\t") for l in lines):
+            lines.insert(0, "H\tVN:Z:1.0")
     text = "\n".join(lines)
     if final and h == 1:
         text += "\n"
@@ -404,8 +406,8 @@ def run_cli(argv, timeout=20, cwd_rel=None):
                                 "\tTotal substitution regions: 77 (7 >50bps)\n\tTotal match regions: 77 (7 >50bps)\nTotal perfect alignments (exact match): 7\n"
                                 "* Numbers are based on primary alignments and the ones with >0 mapping quality\n")
                 else:
-                    with open(target, "w") as f:
-                        f.write("stale_read\t10\t0\t10\t+\t>stale\t10\t0\t10\t10\t10\t60\n" * 3)
+                    with open(target, "w") as f:      # (longer than most outputs: a file that is not truncated keeps its old tail)
+                        f.write("stale_read\t10\t0\t10\t+\t>stale\t10\t0\t10\t10\t10\t60\n" * (3 if zlib.crc32(key.encode()) % 2 else 4000))
                     if flag == "--outgaf" and "--outind" not in argv:
                         with open(target + ".gsi", "wb") as f:
                             pickle.dump({"stale_contig": [0, 0]}, f)
@@ -438,6 +440,8 @@ def run_cli(argv, timeout=20, cwd_rel=None):
     saved_level = logging.getLogger().level
     if debug:
         argv = ["--debug"] + list(argv)
+    loud = debug or to_file is not None      # ... and whenever the records are read from standard output: messages do not belong there
+    if loud:
         logging.disable(logging.NOTSET)
     root = logging.getLogger()
     saved_handlers = root.handlers[:]
@@ -474,7 +478,7 @@ def run_cli(argv, timeout=20, cwd_rel=None):
         for h in root.handlers[:]:
             if h not in saved_handlers:
                 root.removeHandler(h)
-        if debug:
+        if loud:
             logging.disable(saved_disable)
             root.setLevel(saved_level)
     return res
